@@ -68,6 +68,12 @@ def step (_ : Unit) (ws : List String) : Unit × String :=
     let o := sentinelOpt { username := undash u, password := undash p, clientName := undash n, selectDB := db.toInt?.getD 0 }
       (undash su) (undash sp) (undash sn)
     ((), s!"{dash o.username} {dash o.password} {dash o.clientName} {o.selectDB} {o.credFn.isNone}")
+  | "!sopt" :: [_, _, _, _, su, sp, sn] =>
+    -- specification: a sentinel connection uses the sentinel credentials and client name, whatever
+    -- the data-node options are, and never selects a database
+    ((), s!"{su} {sp} {sn} 0 true")
+  | "!sstate" :: [_, _, _, _, su, _, sn] =>
+    ((), s!"user={if su == "-" then "default" else su} db=0 name={sn} leaked=0")
   | "!state" :: rest =>
     match parseOpt (rest.take 16) with
     | some (o, _) =>
